@@ -189,6 +189,20 @@ impl Property for C02 {
             Tier::Thorough => *rng.pick(&[200u64, 600, 2500, 6000]),
         };
         sc.cap_bits = if rng.chance(25) { 192 } else { 96 };
+        // scale: many completed loops (aggregate jump counts), thousands of commands (aggregate program size)
+        match rng.below(1000) {
+            0..=3 => {
+                sc.cmds = gen::many_loops(rng);
+                sc.budget = 16_000;
+                sc.set_knob("scale", 1);
+            }
+            4 => {
+                sc.cmds = gen::long_program(rng);
+                sc.budget = 4_000;
+                sc.set_knob("scale", 2);
+            }
+            _ => {}
+        }
         if rng.chance(20) {
             sc.set_knob("layout", 1);
         }
